@@ -62,7 +62,7 @@ func runC11(res *lib.Result, tier string, seed int64, args []string) error {
 		if pi%3 == 1 {
 			// a table with methods that use the implicit self: references of the table list `self` (it stands for
 			// the table), a rename of the table must not rewrite it
-			src += "local mt = {}\nfunction mt:m1(p)\n  return self, p, mt\nend\nfunction mt.m2(q)\n  return mt:m1(q)\nend\nprint(mt, mt.m2)\n"
+			src += scopeMethodBlock
 		}
 		occs, sess, err := scopeProgram(drv, dir, src)
 		if err != nil {
